@@ -63,6 +63,7 @@ H={
  'C08-r10a':"caught at once; re-made on top of the repair D58 afterwards and caught again",
  # round 11 (an interaction of two features)
  'C17-r11a':"missed at first; caught since the sio timer scenarios have rejected makeTimer requests (unparsable delay) under the id of a pending timer, in the main goroutine, inside handlers and before restarts: the snapshot after the request is compared with the model's pending set",
+ 'C12-r11a':"missed at first; caught (race detector report as the replay, no-failing-input-found) since the specswap host also prepares a revision that keeps its sources - Spec.Copy shares the guards' *ActionSource with the version in use - and compiles it from source under another interpreter installed for the same name, while walkers run the version in use",
  'C02-r11a':"reported at first through the model comparison only (no-failing-input-found: the C02 oracle used the plain embedding relation); caught with a failing input since the oracle also applies C02_match_complete_optional (c02_pre_opt / embeds_opt) and the generator plants assignments around an optional variable beside structured elements",
 }
 for d in sys.argv[1:]:
